@@ -13,6 +13,7 @@ mod lossy;
 mod pgp;
 mod rel;
 mod total;
+mod wrap;
 mod util;
 
 use std::io::{BufRead, Write};
@@ -35,6 +36,9 @@ fn dispatch(op: &str, args: &[&str]) -> Option<Resp> {
         return Some(r);
     }
     if let Some(r) = deb::handle(op, args) {
+        return Some(r);
+    }
+    if let Some(r) = wrap::handle(op, args) {
         return Some(r);
     }
     if let Some(r) = edit::handle(op, args) {
@@ -69,6 +73,7 @@ fn generate(prop: &str, tier: &str, seed: u64, out: &mut util::Out) {
         "C04" => edit::generate_edit(tier, seed, out, "C04"),
         "C05" => edit::generate_edit(tier, seed, out, "C05"),
         "C06" => lossy::generate_c06(tier, seed, out),
+        "C07" => wrap::generate_c07(tier, seed, out),
         "C08" => lossy::generate_c08(tier, seed, out),
         "C09" => rel::generate_c09(tier, seed, out),
         "C10pre" => rel::generate_c10pre(tier, seed, out),
